@@ -2402,7 +2402,10 @@ def shallow_text(world, fn):
             nm = a['referencedDecl']['name'] if a.get('kind') == 'DeclRefExpr' else (a.get('name') if a.get('kind') == 'MemberExpr' else None)
             ln = const_of(n['inner'][2])
             if nm:
-                out[nm] = ({'AddStr': 'str', 'AddAISStr': 'ais', 'AddVarStr': 'var'}[n['inner'][0]['name']], ln)
+                kd = {'AddStr': 'str', 'AddAISStr': 'ais', 'AddVarStr': 'var'}[n['inner'][0]['name']]
+                if kd == 'var' and 'vss_SupportUnicode' in json.dumps(n['inner'][3] if len(n['inner']) > 3 else {}):
+                    kd = 'varu'          # variable string that may carry UCS-2 text
+                out[nm] = (kd, ln)
         for c in n.get('inner', []):
             walk(c)
     walk(fn)
@@ -2615,7 +2618,7 @@ def emit_glue(results, path, worlds):
                 s_[0] if s_ else 0, 'true' if (s_ and s_[1]) else 'false', cdec(s_[2]) if s_ else '0.0',
                 p_[0] if p_ else 0, 'true' if (p_ and p_[1]) else 'false', cdec(p_[2]) if p_ else '0.0',
                 ('en_%s_%d' % (cid, i)) if en else 'nullptr', len(en) if en else 0,
-                {'str': 1, 'ais': 2, 'var': 3}.get(tx[0], 0) if tx else 0, (tx[1] or 0) if tx else 0,
+                {'str': 1, 'ais': 2, 'var': 3, 'varu': 4}.get(tx[0], 0) if tx else 0, (tx[1] or 0) if tx else 0,
                 R.get('remaps', {}).get(nm, (0, -1))[1], 'true' if any(x.lower() == nm.lower() for x in sized) else 'false'))
         H.append('static const Field f_%s[] = {\n%s\n};' % (cid, ',\n'.join(flines)))
         H.append('static void set_%s(tN2kMsg &m, const Val *v) {\n%s\n  %s(%s);\n}' % (cid, '\n'.join(set_lines), R['setter_name'], ', '.join(set_args)))
